@@ -102,6 +102,14 @@ def shard_listed(arg):
     g, o = gen(), oracle()
     pos = o.positions(cc)
     cl = g.classes(cc)
+    miss = onat.missing_fields(cc, pos)
+    if miss:
+        # the published algorithm reads a field the bundled entry does not define: the library cannot judge by it
+        rec.fail(f"table_lacks_field|{cc}|{','.join(miss)}", "national_iff_reference", {"cc": cc, "positions": pos},
+                 "fields " + ",".join(onat.NEEDS[cc]), {"undefined": miss})
+        rec.case(f"{cc}-accept", None)
+        rec.case(f"{cc}-reject", None)
+        return rec
     n = 700 if tier == "quick" else 30000
     has_c = "c" in cl
     acc = rej = 0
